@@ -49,7 +49,7 @@ fn hc(thorough: bool) -> HistCheck<'static> {
 
 pub fn run(ctx: &Ctx, col: &Collector) -> Meta {
     let h = hc(ctx.thorough);
-    run_hist(ctx, col, &h, ctx.n(5000, 80_000));
+    run_hist(ctx, col, &h, ctx.n(5000, 30_000));
     Meta {
         level: "exploration",
         rule: "random histories producing encapsulations with 1-4 targets under any earlier public key, then any mix of rekey, prune, disable, delete, update, then recaps with the newest or an older public key; expected audience = targets whose (right, revision) the master key still holds, intersected with the rights the given public key publishes: recaps must fail when it is empty, otherwise return a new secret and a new encapsulation with exactly that many components, and every user key (refreshed or not) must open the new encapsulation to the new secret iff it holds the public key's revision of one of those rights. Non-trivial = recaps of a multi-target original with at least one target changed (rekeyed, pruned, disabled, deleted) before, or the all-gone failure case; distinct by the whole case".into(),
